@@ -447,6 +447,19 @@ pub fn check(ctx: &Ctx) -> Check {
             }),
             eval: Box::new(eval_shape),
         }),
+        Box::new(EnumPart {
+            name: "large-shapes",
+            rule: "arrays of 1 025 .. 8 193 elements in 1..4 axes (sizes beside 1024 / 4096 / 8192, long and short leading axes): the same complete sweep of indices, views, lengths and sums as in `shapes`",
+            exhaustive: false,
+            cases: Box::new(|ctx: &Ctx| {
+                let mut v = vec![vec![1025usize], vec![33, 32], vec![2, 2049], vec![17, 17, 15], vec![65, 64]];
+                if ctx.tier == crate::engine::Tier::Thorough {
+                    v.extend([vec![4097], vec![3, 2731], vec![2, 4099], vec![9, 8, 8, 9], vec![8193]]);
+                }
+                v.into_iter().map(|shape| ShapeCase { shape }).collect()
+            }),
+            eval: Box::new(eval_shape),
+        }),
         Box::new(RandomPart {
             name: "histories",
             rule: "random call histories (next/len/size_hint/clone/nth/skip) on view::Iter, AxisIter, IndicesIter, FrequenciesIter over random shapes (1..5 axes, lengths 1..6), interpreted against the expected item list; non-trivial = >=2 calls of next() after exhaustion; distinct by (shape, iterator, history)",
